@@ -3,6 +3,7 @@
 Differential monitor against refcodec (strict reader) + step budget (sys.monitoring) for the
 "terminates in time proportional to the input" clause.
 """
+import re
 import struct
 
 from . import gen, pkts, refcodec as rc, monitors
@@ -210,6 +211,10 @@ DECODERS = {
 }
 
 
+OVR_TYPES = {}
+INT_TYPES = {0x0c, 0x18, 0x19, 0x1b, 0x22, 0x28, 0x2a}      # InterestLifetime, ContentType, FreshnessPeriod, SignatureType, HopLimit, SignatureTime, SignatureSeqNum
+
+
 def judge(ctx, dec, wire, klass, wellformed=False, steps=True):
     impl_fn, ref_fn, cmp_fn = DECODERS[dec]
     wire = bytes(wire)
@@ -260,6 +265,14 @@ def judge(ctx, dec, wire, klass, wellformed=False, steps=True):
             if ref_rej.reason == 'overrun' and ref_rej.where == 'model' and not (dec != 'lp' and ref_rej.detail.startswith('type 7 ')):
                 # a field of a TLV container (not a Name element, not a Name component) extends past its parent
                 mech = 'inner-overrun-accepted'
+                _m = re.match(r'type (\d+) at (\d+) length (\d+) ', ref_rej.detail)
+                _t, _off, _ln = (int(_m.group(1)), int(_m.group(2)), int(_m.group(3))) if _m else (-1, 0, 0)
+                OVR_TYPES[(dec, _t)] = OVR_TYPES.get((dec, _t), 0) + 1
+                if klass == 'integer-cut-short-at-the-end-of-its-parent':
+                    # a recognised integer, in its proper place, whose declared width exceeds what is left in its parent: the open
+                    # finding (byte-string / sub-model values sliced without a bounds check) does not cover integers - the
+                    # unchanged library cannot read such an integer and rejects
+                    mech = f'accepts-illformed:{dec}:overrun@integer-field'
             else:
                 mech = f'accepts-illformed:{dec}:{ref_rej.reason}@{ref_rej.where}'
             ctx.report(mech, f'decoder {dec} accepts a byte string the strict reading rejects ({ref_rej})', w)
@@ -493,6 +506,19 @@ def run(ctx):
                 for g in gaps:
                     val = b0[fvs:g] + rc.enc_tlv(t2, body) + b0[g:fve]
                     judge(ctx, 'interest', rc.enc_tlv(5, b0[vs0:fts] + rc.enc_tlv(0x1e, val) + b0[fve:ve0]), 'known-critical-inside-forwarding-hint', steps=False)
+    # recognised integers, in their proper place and last in their parent, declared wider (legal widths) than the octets left there
+    nm_ = rc.enc_name(gen.simple_name(rng, 1, 2))
+    sig_ = rc.enc_tlv(0x16, rc.enc_tlv(0x1b, b'\x00')) + rc.enc_tlv(0x17, bytes(32))
+    for L_ in (1, 2, 4, 8):
+        for present in range(0, L_):
+            cut = bytes([L_]) + b'\x01' * present
+            for dec_, w_ in (('interest', rc.enc_tlv(5, nm_ + b'\x0c' + cut)),
+                             ('interest', rc.enc_tlv(5, nm_ + rc.enc_tlv(0x0a, b'\x00\x00\x00\x07') + b'\x22' + cut)),
+                             ('data', rc.enc_tlv(6, nm_ + rc.enc_tlv(0x14, b'\x19' + cut) + rc.enc_tlv(0x15, b'c') + sig_)),
+                             ('data', rc.enc_tlv(6, nm_ + rc.enc_tlv(0x14, b'\x18' + cut) + rc.enc_tlv(0x15, b'c') + sig_)),
+                             ('data', rc.enc_tlv(6, nm_ + rc.enc_tlv(0x15, b'c') + rc.enc_tlv(0x16, b'\x1b' + cut) + rc.enc_tlv(0x17, bytes(32)))),
+                             ('lp', rc.enc_tlv(0x64, rc.enc_tlv(0x62, b'\x01\x02') + rc.enc_var(0x0340) + cut))):      # (an IDLE envelope: no fragment)
+                judge(ctx, dec_, w_, 'integer-cut-short-at-the-end-of-its-parent', steps=False)
     # every combination of fragmentation headers (this library reassembles nothing: an envelope that says it is a piece is refused)
     inner = rc.make_data(gen.simple_name(rng), content=b'piece', content_type=0, sig_type=0, sig_value=bytes(32))
     for fi in (None, 0, 1, 2, 5, 255, 256, 2**32):
@@ -521,6 +547,7 @@ def run(ctx):
     for dec in decs:
         ctx.need_event(f'{dec}:acc/acc')
         ctx.need_event(f'{dec}:rej/rej')
+    ctx.extra['overrun_accepted_by_decoder_and_type'] = {f'{d}:{t}': n for (d, t), n in sorted(OVR_TYPES.items())}
     ctx.assumptions = ['critical = odd type number, as the library documents (types <= 31 are not treated as critical)',
                        'legal integer width = 1, 2, 4 or 8 (fixed widths of Nonce/HopLimit not demanded)',
                        'non-minimal var-number encodings are not rejected (not demanded)',
